@@ -228,7 +228,7 @@ func slidingExact(seq []string, ref c01Ref) (bad int, msg string) {
 }
 
 func c01Seq(c *Ctx) {
-	c.Cases("pool", c.N(400, 12000), func(i int, r *rand.Rand) {
+	c.Cases("pool", c.N(2000, 60000), func(i int, r *rand.Rand) {
 		weights := c01Weights(r)
 		if i == 0 {
 			weights = []int{3, 0, 6, 1}
@@ -304,7 +304,7 @@ func c01Seq(c *Ctx) {
 }
 
 func c01Conc(c *Ctx) {
-	c.Cases("conc", c.N(60, 1500), func(i int, r *rand.Rand) {
+	c.Cases("conc", c.N(300, 5000), func(i int, r *rand.Rand) {
 		weights := c01Weights(r)
 		rr, urls, hist, err := c01Build(r, http.NotFoundHandler(), weights, r.IntN(6))
 		if err != nil {
@@ -384,7 +384,7 @@ func c01Conc(c *Ctx) {
 }
 
 func c01Lin(c *Ctx) {
-	c.Cases("lin", c.N(40, 800), func(i int, r *rand.Rand) {
+	c.Cases("lin", c.N(200, 3000), func(i int, r *rand.Rand) {
 		weights := c01Weights(r)
 		for k := range weights {
 			if weights[k] > 40 {
